@@ -754,12 +754,75 @@ func runC17(c *Ctx) {
 				}
 			}
 			tables[name][k] = strings.Join(uniq, ";")
-			// guarded by err == nil as well
-			okErr := false
-			for _, pb := range fn.Blocks {
-				if piff, ok := pb.Instrs[len(pb.Instrs)-1].(*ssa.If); ok {
-					if pc, ok := piff.Cond.(*ssa.BinOp); ok && pc.Op == token.EQL && isNilConst(pc.Y) && pb.Succs[0] == b {
-						okErr = true
+			// applied only while nothing before it has failed: for every earlier fallible step (the attribute decode, the
+			// other setters) that can be followed by this one, its error is tested on the way here and the side on which
+			// it is not nil does not come here — whether that is written `err == nil && flag…` or as early returns
+			okErr := true
+			isStep := func(cc *ssa.CallCommon) bool {
+				switch calleeName(cc) {
+				case "Truncate", "Chmod", "Chown", "Chtimes", "unmarshalFileStat":
+					return true
+				}
+				return false
+			}
+			var mine []ssa.Instruction
+			for rb := range region {
+				for _, in := range rb.Instrs {
+					if cc := callOf(in); cc != nil && isStep(cc) && calleeName(cc) != "unmarshalFileStat" {
+						mine = append(mine, in)
+					}
+				}
+			}
+			for _, s := range mine {
+				for _, e := range callsWhere(fn, isStep) {
+					if e == s || !reachAvoiding(fn, e, func(x ssa.Instruction) bool { return x == s }, nil) {
+						continue
+					}
+					// the error of e and the variables it flows into
+					vals := map[ssa.Value]bool{}
+					ev := e.(ssa.Value)
+					if _, isTuple := ev.Type().(*types.Tuple); isTuple {
+						for _, r := range *ev.Referrers() {
+							if ex, ok := r.(*ssa.Extract); ok && ex.Type().String() == "error" {
+								vals[ex] = true
+							}
+						}
+					} else {
+						vals[ev] = true
+					}
+					for changed := true; changed; {
+						changed = false
+						for v := range vals {
+							for _, r := range *v.Referrers() {
+								if ph, ok := r.(*ssa.Phi); ok && !vals[ph] {
+									vals[ph] = true
+									changed = true
+								}
+							}
+						}
+					}
+					var tests []nilTest
+					for v := range vals {
+						tests = append(tests, nilTests(v)...)
+					}
+					isTest := func(x ssa.Instruction) bool {
+						for _, t := range tests {
+							if ssa.Instruction(t.iff) == x {
+								return true
+							}
+						}
+						return false
+					}
+					if reachAvoiding(fn, e, func(x ssa.Instruction) bool { return x == s }, isTest) {
+						okErr = false // a path from the earlier step to this one that never looks at its error
+					}
+					for _, t := range tests {
+						if blockReaches(e.Block(), t.iff.Block()) && reachFromNilSide(t, true, func(x ssa.Instruction) bool { return x == s }, nil) {
+							// the failing side comes here — unless that test lies after this step (a later iteration has none here)
+							if !reachAvoiding(fn, s, func(x ssa.Instruction) bool { return x == ssa.Instruction(t.iff) }, nil) || dominates(t.iff, s) {
+								okErr = false
+							}
+						}
 					}
 				}
 			}
